@@ -29,7 +29,8 @@ EXTENDS Integers, Sequences, TLC, Json, IOUtils, Bytes, BigNat, Vint, WireCases
 
 Maps == ndJsonDeserialize(IOEnv.MAPS)
 
-CONSTANT Pairs          \* BOOLEAN: also emit two-site mutations and header byte pairs
+CONSTANTS Pairs,         \* BOOLEAN: also emit two-site mutations
+          HeaderPairsFor  \* set of case indexes whose header bytes are also mutated two at a time
 
 VARIABLE k              \* index into Maps
 
@@ -294,6 +295,10 @@ Structured(ci, M, s, uq, len) ==
    Mut(ci, "ood.drop_trace_elem", tl, <<SetInt(tl, tl.v - s.ex), Repl(tv.o + tv.l - s.ex, s.ex, <<>>)>>),
    Mut(ci, "ood.swap_blobs_lengths", tl, <<SetInt(tl, ql.v), SetInt(ql, tl.v)>>)}
   \cup
+  \* --- modulus: twice as many modulus bytes (high bytes zero), i.e. the same number in a wider encoding ---
+  {LET ml == Fld(M, "ctx", "modlen")  md == Fld(M, "ctx", "mod") IN
+   Mut(ci, "ctx.mod_widen", ml, <<SetInt(ml, 2 * ml.v), Repl(md.o + md.l, 0, Zeros(md.l))>>)}
+  \cup
   \* --- remainder: same polynomial padded with zero high coefficients; halved ---
   {Mut(ci, "fri.rem_pad_zero", rl, <<SetInt(rl, 2 * rl.v), Repl(rm.o + rm.l, 0, Zeros(rm.l))>>),
    Mut(ci, "fri.rem_halve", rl, IF rm.l >= 2 * s.ex THEN <<SetInt(rl, rl.v \div 2), Repl(rm.o + rm.l \div 2, rm.l \div 2, <<>>)>> ELSE <<>>)}
@@ -371,7 +376,11 @@ MutsOf(r) ==
   \cup Structured(ci, M, s, r.uq, r.len)
   \cup Compensating(ci, M)
   \cup Header1(ci, M) \cup HeaderWide(ci, M)
-  \cup (IF Pairs THEN Header2(ci, M) \cup PairMuts(ci, M) ELSE {})
+  \cup (IF Pairs THEN PairMuts(ci, M) ELSE {})
+  \cup (IF ci \in HeaderPairsFor THEN Header2(ci, M) ELSE {})
+
+HPFirst == {0}
+HPAll == 0..63
 
 Init == k \in 1..Len(Maps)
 Next == UNCHANGED k
